@@ -44,6 +44,7 @@ fn entry(out: &mut impl Write, func: usize, jit: u64) {
             )
             .unwrap()
         }
+        Err(m) if m == ACCESSOR_ABSENT => note_absent(out, "apply_branch_patch(FuncPtrInternal, *mut u8, usize, &[u8]) -> PatchGuard"),
         Err(_) => {
             let now = unsafe { arena::read(func, 16) };
             let orig: Vec<u8> = (0..16u8).map(|i| 0xA0 + i).collect();
